@@ -364,8 +364,11 @@ func (g *c13) multi(sc *c13scope, x *ast.CallExpr) (string, []c13typ) {
 
 var c13cmp = map[token.Token]string{token.EQL: "=", token.NEQ: "≠", token.LSS: "<", token.LEQ: "≤", token.GTR: ">", token.GEQ: "≥"}
 
-/* a boolean expression: a `Bool` term, or (monadic) an `Except Panic Bool` term when evaluating it
-   reads through a pointer */
+/*
+a boolean expression: a `Bool` term, or (monadic) an `Except Panic Bool` term when evaluating it
+
+	reads through a pointer
+*/
 func (g *c13) cond(sc *c13scope, e ast.Expr) (string, bool) {
 	switch x := e.(type) {
 	case *ast.ParenExpr:
